@@ -98,6 +98,16 @@ class SymArray(_np.ndarray):
                 return out.view(SymArray)
             if dt.kind == "f":
                 return self.copy()
+            if dt.kind == "m":
+                # object arrays that stand for time differences hold integer nanoseconds
+                unit = _np.datetime_data(dt)[0]
+                div = {"ns": 1, "us": 10 ** 3, "ms": 10 ** 6, "s": 10 ** 9, "m": 60 * 10 ** 9,
+                       "h": 3600 * 10 ** 9}[unit]
+                out = _np.empty(self.shape, dtype=object)
+                o = out.reshape(-1)
+                for i, e in enumerate(self.reshape(-1)):
+                    o[i] = symint(e / div) * div if div != 1 else e
+                return out.view(SymArray)
             if dt.kind == "b":
                 out = _np.empty(self.shape, dtype=object)
                 o = out.reshape(-1)
